@@ -30,6 +30,22 @@ pub struct C12 {
 	pw_hist: BTreeMap<usize, Vec<String>>,
 	test_nonce_pub: String,
 	reported: std::collections::BTreeSet<String>,
+	/// (wallet, pub nonce hex) -> (partial signature hex, slate id, message) the nonce signed
+	signed: BTreeMap<(usize, String), (String, uuid::Uuid, usize)>,
+	/// scripted: the recipient answers the same slate twice (receive, cancel, receive
+	/// again: two replies with different nonces), the sender finalizes one reply and
+	/// then the other
+	refin: Option<Refin>,
+	refins_left: u32,
+}
+
+struct Refin {
+	a: usize,
+	b: usize,
+	stage: u32,
+	m1: Option<usize>,
+	m2a: Option<usize>,
+	m2b: Option<usize>,
 }
 
 fn encodings(what: &str, raw: &[u8]) -> Vec<(String, Vec<u8>)> {
@@ -138,6 +154,9 @@ impl C12 {
 			pw_hist: BTreeMap::new(),
 			test_nonce_pub,
 			reported: std::collections::BTreeSet::new(),
+			signed: BTreeMap::new(),
+			refin: None,
+			refins_left: if run.rng.chance(1, 2) { 1 + run.rng.below(2) as u32 } else { 0 },
 		}
 	}
 
@@ -392,6 +411,43 @@ pub fn copy_dir(src: &str, dst: &str) {
 	}
 }
 
+impl C12 {
+	fn refin_step(&mut self, run: &mut Run) -> Option<Step> {
+		let r = self.refin.as_mut()?;
+		let op = match r.stage {
+			0 => {
+				let mut a = crate::ops::SendArgs::simple(run.rng.range(1, 2) * 1_000_000_000 + run.rng.below(1000));
+				a.min_conf = 1;
+				a.max_outputs = 500;
+				a.num_change = 1;
+				a.late_lock = run.rng.chance(2, 3);
+				Op::InitSend { w: r.a, args: a }
+			}
+			1 => Op::Receive { w: r.b, m: r.m1?, dest: None, enc: crate::ops::Enc::Mem },
+			2 => Op::Cancel { w: r.b, m: Some(r.m1?), id: None },
+			3 => Op::Receive { w: r.b, m: r.m1?, dest: None, enc: crate::ops::Enc::Mem },
+			4 => {
+				// a plain send reserves before it finalizes
+				let late = matches!(run.trace.iter().rev().find_map(|s| match &s.op { Op::InitSend { args, .. } => Some(args.late_lock), _ => None }), Some(true));
+				if late {
+					r.stage += 1;
+					Op::Finalize { w: r.a, m: r.m2a?, foreign: run.rng.chance(1, 3) }
+				} else {
+					Op::Lock { w: r.a, m: r.m1? }
+				}
+			}
+			5 => Op::Finalize { w: r.a, m: r.m2a?, foreign: run.rng.chance(1, 3) },
+			6 => {
+				run.cov.probe("second_reply_to_a_finalized_slate_delivered");
+				Op::Finalize { w: r.a, m: r.m2b?, foreign: run.rng.chance(1, 3) }
+			}
+			_ => return None,
+		};
+		r.stage += 1;
+		Some(Step::new(op))
+	}
+}
+
 impl Prop for C12 {
 	fn id(&self) -> &'static str {
 		"C12"
@@ -402,6 +458,28 @@ impl Prop for C12 {
 	}
 
 	fn next(&mut self, run: &mut Run) -> Option<Step> {
+		if self.refin.is_some() {
+			match self.refin_step(run) {
+				Some(s) => return Some(s),
+				None => self.refin = None,
+			}
+		}
+		if self.gen.setup_done && self.refins_left > 0 && run.rng.chance(1, 8) {
+			let nw = run.ex.world.wallets.len();
+			if nw >= 2 && !run.ex.world.chain.is_down() {
+				let a = run.rng.idx(nw);
+				let b = (a + 1 + run.rng.idx(nw - 1)) % nw;
+				if run.ex.world.is_open(a) && run.ex.world.is_open(b) && HistGen::spendable(run, a) > 3_000_000_000 {
+					self.refins_left -= 1;
+					self.refin = Some(Refin { a, b, stage: 0, m1: None, m2a: None, m2b: None });
+					run.cov.probe("two_replies_to_one_slate_script_started");
+					if let Some(s) = self.refin_step(run) {
+						return Some(s);
+					}
+					self.refin = None;
+				}
+			}
+		}
 		if self.gen.setup_done {
 			let nw = run.ex.world.wallets.len();
 			if self.lifecycle_done < 2 && run.rng.chance(1, 12) {
@@ -450,6 +528,19 @@ impl Prop for C12 {
 	fn after(&mut self, run: &mut Run, step: &Step, out: &StepOut) -> Vec<Violation> {
 		let mut v = vec![];
 		self.gen.feedback(run, step, out);
+		if let Some(r) = self.refin.as_mut() {
+			match (&step.op, out.new_msg) {
+				(Op::InitSend { .. }, Some(m)) if r.stage == 1 => r.m1 = Some(m),
+				(Op::Receive { .. }, Some(m)) if r.stage == 2 => r.m2a = Some(m),
+				(Op::Receive { .. }, Some(m)) if r.stage == 4 => r.m2b = Some(m),
+				_ => {}
+			}
+			// the script goes on after a refused second finalize (that is the expected
+			// answer); any other failure ends it
+			if !out.ok && r.stage < 7 {
+				self.refin = None;
+			}
+		}
 		for w in 0..run.ex.world.wallets.len() {
 			let pw = run.ex.world.wallets[w].password.clone();
 			let h = self.pw_hist.entry(w).or_default();
@@ -537,6 +628,46 @@ impl Prop for C12 {
 					format!("message {} ({}) contains {}", i, crate::ops::state_name(&m.slate.state), name),
 				));
 				return v;
+			}
+			// 4b. a signing nonce signs one message: the same public nonce of a wallet never
+			// comes with two different partial signatures (two finalizations of one slate id
+			// against different replies would show exactly that)
+			if m.mutated.is_none() {
+				let secp = static_secp_instance();
+				let secp = secp.lock();
+				let mut found: Vec<(usize, String, String)> = vec![];
+				for p in &m.slate.participant_data {
+					let n = p.public_nonce.serialize_vec(&secp, true).to_vec().to_hex();
+					if let Some(sig) = &p.part_sig {
+						let sg = sig.serialize_compact(&secp).to_vec().to_hex();
+						for w in 0..run.ex.world.wallets.len() {
+							if self.nonces.contains_key(&(w, format!("nonce:{}", n))) {
+								found.push((w, n.clone(), sg.clone()));
+							}
+						}
+					}
+				}
+				drop(secp);
+				for (w, n, sg) in found {
+					match self.signed.get(&(w, n.clone())) {
+						Some((sg0, id0, m0)) if *sg0 != sg => {
+							v.push(run.viol(
+								"fresh_nonces",
+								"nonce_signed_two_messages",
+								format!(
+									"wallet {}: the public nonce {} comes with two different partial signatures (message {} of slate {} and message {} of slate {})",
+									w, n, m0, id0, i, m.slate.id
+								),
+							));
+							return v;
+						}
+						Some(_) => {}
+						None => {
+							self.signed.insert((w, n), (sg, m.slate.id, i));
+							run.cov.probe("partial_signature_recorded");
+						}
+					}
+				}
 			}
 			// 4. nonce freshness
 			if let Some(w) = m.from {
